@@ -33,7 +33,7 @@ func init() {
 		Batches: tiered(192, 3840),
 		Run:     runC01,
 		Par:     16,
-		Timeout: timeoutFor(10*time.Minute, 45*time.Minute),
+		Timeout: timeoutFor(3*time.Minute, 45*time.Minute),
 	})
 }
 
